@@ -113,7 +113,8 @@ class C09(Prop):
         self.corr_stats = {}
         self.undetected = []
         self.zlib_blocks = 0
-        self.zlib_bad = 0
+        self.zlib_bad = 0          # in uncorrupted files
+        self.zlib_bad_corrupted = 0
 
     # ------------------------------------------------------------------ generation
     def gen(self, rng, tier):
@@ -207,7 +208,9 @@ class C09(Prop):
                     if ok:
                         table.append("(%d %d %s)" % (off, size, bytes_sx(outb)))
                     else:
-                        zoks[i] = 0; self.zlib_bad += 1
+                        zoks[i] = 0
+                        if _CORR.search(lines[i]): self.zlib_bad_corrupted += 1
+                        else: self.zlib_bad += 1
             b_idx.append(i)
             b_in.append("(" + bytes_sx(files[i]) + " (" + " ".join(table) + "))")
         b_out = core.run_model(self.ID, 3, b_in) if b_idx else []
@@ -289,7 +292,8 @@ class C09(Prop):
         res.append(("stat", "corruptions by kind: applied, detected, field absent",
                     {CORRUPT_KINDS[k]: v for k, v in sorted(self.corr_stats.items())}))
         res.append(("stat", "undetected corruptions (first 10)", self.undetected[:10]))
-        res.append(("stat", "zlib blocks inflated by Python / not a standard zlib stream", "%d / %d" % (self.zlib_blocks, self.zlib_bad)))
+        res.append(("stat", "zlib blocks inflated by Python / not one complete standard zlib stream: in uncorrupted files, in corrupted files",
+                    "%d / %d, %d" % (self.zlib_blocks, self.zlib_bad, self.zlib_bad_corrupted)))
         return res
 
 PROP = C09()
